@@ -2,7 +2,9 @@
 """print the prompt given to a seeding sub-agent for property <id> (only the property text + its worktree)"""
 import json, sys
 pid = sys.argv[1]
-wt = f"/tmp/seed-{pid}"
+tag = sys.argv[2] if len(sys.argv) > 2 else ""
+wt = f"/tmp/seed-{pid}{tag}"
+avoid = sys.argv[3] if len(sys.argv) > 3 else ""
 p = next(json.loads(l) for l in open('/verif/properties.jsonl') if json.loads(l)['id'] == pid)
 print(f"""You are a careful software engineer playing the role of a *realistic bug seeder* for the Python library mbsantiago/soundevent (bioacoustics data schemas, AOEF JSON I/O, geometry operations, evaluation). You have your own scratch git worktree of the library at **{wt}** (a detached checkout; the source is under {wt}/src/soundevent, the tests under {wt}/tests). Work ONLY inside {wt}. Do not read or write /verif, /repo or /work (they are off limits; do not even list them).
 
@@ -17,7 +19,7 @@ The library is supposed to satisfy this semantic property:
 Your task: produce TWO independent, different source changes to the library (each a small patch to files under src/soundevent) such that, with the change applied,
   (a) the library still imports and the existing test suite still passes exactly as before (same 3 pre-existing failures, nothing else), and
   (b) the property above is violated for some input — but only for inputs/situations that need something *specific* to manifest: an unusual or boundary input, a particular combination of options, a multi-step sequence of operations, one branch of several, one of several types or construction paths, or two cooperating edits that each look fine alone. Do NOT make changes that ordinary use or a casual smoke test would expose at once (e.g. breaking every call), and do not touch tests, docs or packaging.
-Make the two changes different in kind (different function / mechanism / type), and make each look like a plausible refactoring or "optimisation" mistake a real contributor could make.
+{("Changes of the following kinds have already been produced by others, so produce something different in mechanism: " + avoid + ". ") if avoid else ""}Make the two changes different in kind (different function / mechanism / type), and make each look like a plausible refactoring or "optimisation" mistake a real contributor could make.
 
 For each change i in (1, 2) create a directory {wt}/seed/i/ containing:
   - `patch.diff`: the change as `git diff` output relative to the pristine checkout (must apply with `git apply` to a pristine checkout);
